@@ -23,6 +23,18 @@ def crossdoc_case(rng):
                 docs[i] = gen.inject_ref(rng, docs[i])
             except Exception:
                 pass
+    # hidden / selected TEMPLATE documents (top-level $output) referenced as a WHOLE (no path) or by path
+    for d in docs:
+        if isinstance(d, dict) and rng.random() < 0.35:
+            d["$output"] = rng.choice([False, False, True])
+        for k, v in list(d.items()) if isinstance(d, dict) else []:
+            if isinstance(v, dict):
+                for kind in ("$merge", "$replace"):
+                    ref = v.get(kind)
+                    if isinstance(ref, list) and ref and isinstance(ref[0], dict) and rng.random() < 0.35:
+                        v[kind] = ref[:1]
+                    elif isinstance(ref, dict) and "$match" in ref and rng.random() < 0.35:
+                        ref.pop("$path", None)
     steps = [{"merge": {"id": f"D{i}", "parents": [], "data": d}} for i, d in enumerate(docs)]
     steps += [rng.choice([{"outdocs": True}, {"out": rng.choice(FMTS)}]), {"docs": True}]
     # patch one document through $match on its kind: change a scalar somewhere below a map path
